@@ -17,12 +17,15 @@ SPEC = {
         'C18_served_proofs_verify_refuted',
         'C18_served_proofs_verify_partial',
         'C18_served_proofs_verify',
+        'C18_served_proofs_verify_para_refuted',
+        'C18_served_proofs_verify_para_partial',
         'C18_served_proof_binding',
         'C18_served_block_binding',
         'C18_h_eqb_correct',
         'C18_example_duptail',
         'C18_example_parallel_and_branch',
         'C18_example_served',
+        'C18_example_para',
     ],
     'allowed_axioms': [],
     'shard': 450,
@@ -40,7 +43,9 @@ SPEC = {
             'consensus from the mempool, and raw blocks carrying the generated order with TxHash as util.ExecBlock computes it '
             '(unrestricted: known finding 1 when unsorted after the fork; guarded = pre-fork, producer, mined and raw-in-order blocks); '
             'per stored block: header TxHash, LoadParaTxByHeight rows, QueryTx reply of every transaction through the queue API; '
-            '5 pre-fork + ~53 post-fork blocks quick (~400 thorough, some child chains above the 80-leaf threshold). '
+            '5 pre-fork + ~53 post-fork blocks quick (~400 thorough, some child chains above the 80-leaf threshold); then a second node run as a '
+            'para-chain node (Title user.p.b., blockchain.isParaChain, fork decided by the block\'s MainHeight): 15 blocks quick (~70 thorough), '
+            'pre-fork, one-title (guarded) and title-sorted mixed blocks (unrestricted: known finding 2). '
             'non-trivial = at least two leaves/transactions (and an in-range position for branch cases); distinct = distinct Gallina case terms',
     'trusted_base': [
         'crypto/sha256 and the harness\'s own 5-line double hash + level-by-level reference tree (independent of merkle.go) produce the '
@@ -67,8 +72,8 @@ SPEC = {
         'checked by the harness for its title set); the para-tx table of one height is a title-ordered association list (Replace on (height,title), '
         'rows of the height belong to the stored block: delParaTxTable on rollback, the harness marks foreign rows); block_txhash is what util.ExecBlock '
         'leaves in / demands of the header (root of TransactionSort(txs) after the fork, root of tx.Hash() before); int32/uint32 index arithmetic does not overflow; '
-        'the isParaChain branch of getMultiLayerProofs / ProcQueryTxMsg is in the model (flag is_para) but theorems and harness cover main-chain nodes only '
-        '(a para-chain node needs the para consensus plugin)',
+        'the para-chain node of the harness is a test node with a para title and blockchain.isParaChain=true running solo consensus (the para consensus plugin '
+        'is not in the repository): its blocks are delivered through ProcessBlock; which transactions a real para-chain block may hold is decided by that plugin',
     ],
     'manifest': {
         'level_text': 'full for consistency (parallel = sequential = constant-space = recursive tree root, every worker count and leaf count) and '
@@ -78,7 +83,8 @@ SPEC = {
                       'Proof serving (QueryTx: TransactionSort, header TxHash, para-tx table, getMultiLayerProofs, client check): full for every block '
                       'the producers build (any mix/order of main and para transactions, both sides of ForkRootHash) and binding of a served reply; '
                       'partial for received blocks: guarded by the stored list being title-sorted, because the node accepts unsorted blocks whose served proofs '
-                      'do not verify (C18_served_proofs_verify_refuted, known finding 1, reproduced on a real node)',
+                      'do not verify (C18_served_proofs_verify_refuted, known finding 1, reproduced on a real node); para-chain node: guarded by a one-title block, '
+                      'a block with several titles gets a proof that does not verify (C18_served_proofs_verify_para_refuted, known finding 2, reproduced)',
         'level_note': 'Trusted: Coq kernel; crypto/sha256 and the harness reference used to tabulate hashes; taskset/NumCPU; symbolic hash for binding.',
         'technique': 'Coq proof (binary-counter invariant over the leaf list, level-wise reduction lemma for the chunked root) + in-kernel correspondence check with a table-backed hash',
     },
